@@ -27,12 +27,16 @@ type c41S3 struct {
 	ranged    atomic.Int64
 	uploads   atomic.Int64
 	failed    atomic.Int64
+	failEvery int // 0 = ~1% of uploads fail; k = one in k
 }
 
 func (c *c41S3) jitter() (fail bool) {
 	n := c.ctr.Add(1)
 	x := uint64(n*2654435761) ^ uint64(c.seed)
 	time.Sleep(time.Duration(x%200) * time.Microsecond)
+	if c.failEvery > 0 {
+		return x%uint64(c.failEvery) == 0
+	}
 	return x%97 == 0
 }
 func (c *c41S3) UploadSegment(ctx context.Context, key string, body []byte) error {
@@ -62,7 +66,7 @@ func (c *c41S3) DownloadSegment(ctx context.Context, key string, rng *storage.By
 
 func TestVerifC41Stress(t *testing.T) {
 	r := verifkit.Start(t, "C41", "stress")
-	defer r.Finish("repetition = fresh handler; 8 producers x 12 produce requests (acks -1/1/0 mixed), 6 fetchers x 40 fetches at random offsets and byte limits, 2 ListOffsets callers, all on 2 partitions of one topic; buffer flush threshold 2 batches, index interval 2, cache 1200 bytes (about 3 segments), read-ahead 2, S3 calls sleep 0-200us and ~1% of uploads fail; the race detector watches; non-trivial = repetition in which prefetch downloads, cache hits and evictions all occurred",
+	defer r.Finish("repetition = fresh handler; 8 producers x 12 produce requests (acks -1/1/0 mixed), 6 fetchers x 40 fetches at random offsets and byte limits, 2 ListOffsets callers, all on 2 partitions of one topic; buffer flush threshold 2 batches, index interval 2, cache 1200 bytes (about 3 segments), read-ahead 2, S3 calls sleep 0-200us and ~1% of uploads fail (25% in the buffered-mode repetitions, so that the upload-failure path runs while fetchers read the flush window); the race detector watches; non-trivial = repetition in which prefetch downloads, cache hits and evictions all occurred",
 		"a clean run means no race was observed on these executions")
 	n := r.N(30, 1500)
 	for ci := 0; ci < n; ci++ {
@@ -77,6 +81,9 @@ func TestVerifC41Stress(t *testing.T) {
 			t.Fatal(err)
 		}
 		s3 := &c41S3{s3View: &s3View{v: v, inst: inst}, seed: rng.Int63()}
+		if ci%3 == 0 {
+			s3.failEvery = 4 // buffered mode: many failed flushes while fetchers read the unflushed tail / flush window
+		}
 		h := newHandler(store, s3, brokerInfo, discardLogger())
 		h.flushOnAck = ci%3 != 0 // every third repetition runs the buffered (flush-disabled) mode
 		h.autoCreateTopics = false
